@@ -37,20 +37,22 @@ BaseTx == Tx(D(2024, 1, 15), Text(1), << Post(3, <<Amt(1050, 2, 4)>>), Post(2, <
 Values == { <<5, 0>>, <<100, 0>>, <<1050, 2>>, <<15, 1>>, <<123456, 2>>, <<1234567, 0>>, <<123456789, 2>>,
             <<2500, 0>>, <<1, 0>>, <<12345678, 4>>, <<7, 8>>, <<123, 12>>, <<100000, 0>>, <<1000, 3>> }
 
-AllAmounts ==
+AllAmounts(u) ==
     { a \in [neg : BOOLEAN, m : {v[1] : v \in Values}, sc : {v[2] : v \in Values}, n : Notations, comm : 0..Len(Commodities),
              side : {"L", "R"}, sp : BOOLEAN, sgn : {"before", "after"}, plus : BOOLEAN] :
         <<a.m, a.sc>> \in Values /\ AmountOK(a) }
 
+(* The large enumerations take a dummy parameter so that TLC does not pre-evaluate them as constants
+   (it would do so once per worker at start-up). *)
 (* ---- families ------------------------------------------------------------------------------- *)
 Case(fam, trig, es) == [fam |-> fam, trig |-> trig, es |-> es, eol |-> "LF", final |-> TRUE]
 
-FamAmounts ==
-    { Case("amounts", "", << [BaseTx EXCEPT !.posts[1].amt = <<a>>] >>) : a \in AllAmounts }
+FamAmounts(u) ==
+    { Case("amounts", "", << [BaseTx EXCEPT !.posts[1].amt = <<a>>] >>) : a \in AllAmounts(0) }
     \cup { Case("amounts-cost", "", << [BaseTx EXCEPT !.posts[1].cost = <<[total |-> t, a |-> a]>>] >>) :
-             t \in BOOLEAN, a \in { x \in AllAmounts : ~x.neg /\ ~x.plus /\ x.m \in {15, 1050} /\ x.comm \in {1, 5, 7} } }
+             t \in BOOLEAN, a \in { x \in AllAmounts(0) : ~x.neg /\ ~x.plus /\ x.m \in {15, 1050} /\ x.comm \in {1, 5, 7} } }
     \cup { Case("amounts-assert", "", << [BaseTx EXCEPT !.posts[1].asrt = <<[strict |-> t, a |-> a]>>] >>) :
-             t \in BOOLEAN, a \in { x \in AllAmounts : ~x.plus /\ x.m \in {100, 1050} /\ x.comm \in {0, 1, 4, 8} } }
+             t \in BOOLEAN, a \in { x \in AllAmounts(0) : ~x.plus /\ x.m \in {100, 1050} /\ x.comm \in {0, 1, 4, 8} } }
 
 Dates == { [y |-> 2024, m |-> m, d |-> d, sep |-> s, pad |-> p] : m \in {1, 12}, d \in {5, 31}, s \in {"-", "/", "."}, p \in BOOLEAN }
 DescKinds == { [kind |-> "text", i |-> i, j |-> 1] : i \in 1..Len(Descriptions) }
@@ -59,7 +61,7 @@ DescKinds == { [kind |-> "text", i |-> i, j |-> 1] : i \in 1..Len(Descriptions) 
 TrigDescs == { [kind |-> "trigger", i |-> i, j |-> 1] : i \in 1..Len(TriggerDescriptions) }
 HComments == { NoCmt, Cmt(1, <<>>), Cmt(0, <<1>>), Cmt(0, <<1, 2>>), Cmt(4, <<3>>), Cmt(3, <<>>), Cmt(0, <<5, 6>>) }
 
-FamHeaders ==
+FamHeaders(u) ==
     { Case("headers-date", "", << [BaseTx EXCEPT !.date = d, !.date2 = d2] >>) :
           d \in Dates, d2 \in {<<>>} \cup { <<x>> : x \in { y \in Dates : y.m = 12 /\ y.d = 5 } } }
     \cup { Case("headers", "", << [BaseTx EXCEPT !.st = s, !.code = c, !.desc = k, !.cmt = hc, !.hgap = g] >>) :
@@ -71,7 +73,7 @@ PCosts == { <<>>, <<[total |-> FALSE, a |-> Amt(15, 1, 2)]>>, <<[total |-> TRUE,
 PAsrts == { <<>>, <<[strict |-> FALSE, a |-> Amt(100, 0, 4)]>>, <<[strict |-> TRUE, a |-> [Amt(100, 0, 1) EXCEPT !.side = "L", !.sp = FALSE, !.neg = TRUE]]>> }
 PComments == { NoCmt, Cmt(1, <<>>), Cmt(0, <<1>>), Cmt(0, <<2, 4>>), Cmt(2, <<>>) }
 
-FamPostings ==
+FamPostings(u) ==
     { Case("postings", "", << [BaseTx EXCEPT !.posts[1] = [ind |-> i, st |-> s, kind |-> k, acct |-> a, gap |-> g,
                                                            amt |-> <<Amt(1050, 2, 4)>>, cost |-> c, asrt |-> b, cmt |-> pc]] >>) :
           i \in {0, 1, 2, 4, 8}, s \in {"", "*", "!"}, k \in {"real", "paren", "bracket"}, a \in 1..Len(Accounts), g \in {2, 5},
@@ -120,7 +122,7 @@ Constructs == <<
   [dir |-> "comment", c |-> [free |-> 0, tags |-> <<1>>]],
   [dir |-> "blank"] >>
 
-FamPairs ==
+FamPairs(u) ==
     { Case("single", "", << Constructs[i] >>) : i \in 1..Len(Constructs) }
     \cup { Case("pairs", "", << Constructs[i], Constructs[j] >>) : i \in 1..Len(Constructs), j \in 1..Len(Constructs) }
     \cup { Case("triples", "", << Constructs[i], Constructs[j], Constructs[1] >>) : i \in 1..Len(Constructs), j \in 1..Len(Constructs) }
@@ -195,19 +197,19 @@ RandJournal(x) ==
 RandCase(x) == [fam |-> "random", trig |-> "", es |-> RandJournal(x), eol |-> Pick({"LF", "LF", "CRLF"}), final |-> ~Coin(4, x)]
 
 (* ---- the one-step behaviour that TLC enumerates / simulates --------------------------------- *)
-VARIABLES c, n
-vars == <<c, n>>
+VARIABLES cas, stg
+vars == <<cas, stg>>
 
-FamilySet == CASE Family = "amounts"  -> FamAmounts
-               [] Family = "headers"  -> FamHeaders
-               [] Family = "postings" -> FamPostings
-               [] Family = "pairs"    -> FamPairs
+FamilySet(u) == CASE Family = "amounts"  -> FamAmounts(0)
+               [] Family = "headers"  -> FamHeaders(0)
+               [] Family = "postings" -> FamPostings(0)
+               [] Family = "pairs"    -> FamPairs(0)
                [] OTHER               -> {}
 
-Init == IF Family = "random" THEN c = <<>> /\ n = 0 ELSE c \in FamilySet /\ n = 1
-Next == /\ Family = "random" /\ n = 0
-        /\ n' = 1
-        /\ c' = RandCase(n)
+Init == IF Family = "random" THEN cas = <<>> /\ stg = 0 ELSE cas \in FamilySet(0) /\ stg = 1
+Next == /\ Family = "random" /\ stg = 0
+        /\ stg' = 1
+        /\ cas' = RandCase(stg)
 
 Out(k) == LET r == Rendered(k.es) IN
           [fam |-> k.fam, trig |-> k.trig, eol |-> k.eol, final |-> k.final, lines |-> r.lines, firsts |-> r.firsts, abs |-> r.abs,
@@ -216,5 +218,5 @@ Out(k) == LET r == Rendered(k.es) IN
 
 WellFormed(k) == \A i \in 1..Len(k.es) : IsTx(k.es[i]) => TxOK(k.es[i])
 
-Emit == (n = 1) => (WellFormed(c) => PrintT(ToJson(Out(c))))
+Emit == (stg = 1) => (WellFormed(cas) => PrintT(ToJson(Out(cas))))
 =============================================================================
